@@ -6,6 +6,8 @@ import OrsoVerif.Lemmas.IsoRefine
 import OrsoVerif.Lemmas.IsoChar
 import OrsoVerif.Lemmas.IsoSound
 import OrsoVerif.Lemmas.IsoTail
+import OrsoVerif.Lemmas.IsoTimeOfDay
+import OrsoVerif.Lemmas.IsoGrammar
 /-!
 # C08 — Timestamp parsing round-trips ISO-8601 and epoch forms and is total
 
@@ -51,6 +53,19 @@ example : parseIso (.int (-62135596800)) = .value ⟨1, 1, 1, 0, 0, 0, 0⟩ := b
 example : parseIso (.str "2023-04-18T12:34-05:00".toList) = .none := by decide
 example : parseIso (.str "2023-02-29".toList) = .none := by decide
 
+
+/-- The time-of-day reading (`datetime.time.fromisoformat`), including two things the C code does beyond its
+documentation, and the TIME cast built on it. -/
+example : timeOfDay "12:34:56.7891234".toList = .time 12 34 56 789123 ∧ timeOfDay "T0930".toList = .time 9 30 0 0 ∧
+    timeOfDay "24:00".toList = .raises .valueError ∧ timeOfDay "12:34:56+24:00".toList = .raises .valueError ∧
+    timeOfDay "12x+01:00".toList = .time 12 0 0 0 ∧ timeOfDay "12:30:45:5".toList = .time 12 30 45 500000 ∧
+    timeOfDay " 12:34".toList = .raises .valueError ∧ timeOfDay "12é+01:00".toList = .raises .valueError := by decide
+example : Iso.cast .time (.str "12:34:56".toList) = .time 12 34 56 0 ∧
+    Iso.cast .time (.str "2023-04-18T12:34:56".toList) = .time 12 34 56 0 ∧
+    Iso.cast .time (.str "25:00".toList) = .raises .valueError ∧
+    Iso.cast .timestamp (.str "12:34:56".toList) = .raises .valueError ∧
+    castRun .time (.bytes "07:08".toUTF8.data.toList) = some (.time 7 8 0 0) := by decide
+example : fracMicro "5".toList = 500000 ∧ fracMicro "1234567".toList = 123456 ∧ truncMicro 123456 2 = 120000 := by decide
 
 /-! ## Theorems -/
 
@@ -526,6 +541,110 @@ theorem text_value_sound (s : List Char) (dt : DateTime) (h : parseIso (.str s) 
           guards_cover_subscripts_and_exceptions guards_reject_everything_else dash_test_keeps_only_dashes s _ ht
         exact ⟨hv, hm, fun _ => ⟨h4, h7, y, m, d⟩⟩
 
+/-- **The generated guards are exactly the stated tests.**  Each expression lifted from `parse_iso` on this
+run is *equivalent* to the test the grammar of `text_grammar` is written with: the window is `10 ≤ n ≤ 33`,
+the second window rejects exactly outside `10..28`, the dash operands are `≠ '-'` joined by `or`, the length
+tests are `= 10`, `≥ 16`, `= 16`, `≥ 19`, the separator operands are `∉ {T, space}` and `≠ ':'` joined by
+`and`, the seconds character test is `= ':'`; subscripts 4, 7, 10, 13, 16; the three slice lists; `Z` and `+`;
+`int` is among the epoch types.  (`Lemmas/IsoGrammar.lean` unfolds nothing generated: a changed guard fails
+here, at the field concerned.) -/
+theorem guards_are_exactly_the_stated_ones : Iso.Exact where
+  idx := by decide
+  slices := by decide
+  chars := by decide
+  epochInt := by decide
+  window := fun _ => Iff.rfl
+  plus := fun _ => Iff.rfl
+  dashA := fun _ => Iff.rfl
+  dashB := fun _ => Iff.rfl
+  dashJoin := rfl
+  dateLen := fun _ => Iff.rfl
+  timeLen := fun _ => Iff.rfl
+  minLen := fun _ => Iff.rfl
+  sepA := fun _ => Iff.rfl
+  sepB := fun _ => Iff.rfl
+  sepJoin := rfl
+  secLen := fun _ => Iff.rfl
+  secChar := fun _ => Iff.rfl
+
+/-- **The texts the parser reads are exactly an explicitly described language, with the value of each.**
+`Iso.IsoText s dt` (`Model/IsoGrammar.lean`, defined inductively without reference to the parser or to
+anything generated) holds when either `s` is all ASCII digits (at most 4300) and `dt` is the valid
+date-time of years 1..9999, in whole seconds, whose Unix second count `s` denotes; or `s` is not all
+digits, has 10..33 characters, and — after one trailing `Z` is dropped and everything from the first `+`
+is cut (10..28 characters must then be left) — is in one of three layouts: exactly 10 characters
+`YYYY-MM-DD`; exactly 16 `YYYY-MM-DD?HH?MM`; at least 19 `YYYY-MM-DD?HH?MM:SS…` — with `-` at offsets 4
+and 7, for the time layouts `T` or space at offset 10 or `:` at 13, for the seconds layout `:` at 16,
+and the columns 0-4, 5-7, 8-10 (11-13, 14-16, 17-19) read by `int()` as the year, month, day (hour,
+minute, second) of a valid date-time: month 1..12, day within the month (29 February only in leap
+years: every 4th year except centuries not divisible by 400), hour ≤ 23, minute ≤ 59, second ≤ 59.
+For **every** text `s` and every `dt`: `parse_iso(s)` returns `dt` *iff* `IsoText s dt`; and for
+every byte string: iff it is the UTF-8 encoding of such a text.  So nothing else is read — `24:00`,
+second 60, year 0000, 29 February 1900, a 17/18-character text, `t` as separator *and* no `:` at 13 —
+and whatever is read has the value of its columns: Unix seconds
+`(toOrdinal year month day − 719163) · 86400 + hour · 3600 + minute · 60 + second` (`Iso.toEpoch`,
+proleptic Gregorian). -/
+theorem text_grammar (dt : DateTime) :
+    (∀ s : List Char, parseIso (.str s) = .value dt ↔ IsoText s dt) ∧
+    (∀ b : List UInt8, parseIso (.bytes b) = .value dt ↔ ∃ s, decodeUtf8 b = some s ∧ IsoText s dt) := by
+  have key : ∀ s : List Char, strBody s = .ok (some dt) ↔ IsoText s dt := by
+    intro s
+    unfold strBody
+    by_cases hd : isDigitStr s = true
+    · rw [if_pos hd, digits_iff s hd dt]
+      constructor
+      · rintro ⟨_, hl, hv, hm, he⟩
+        exact .epoch hd hl hv hm he
+      · intro h
+        cases h with
+        | epoch _ hl hv hm he => exact ⟨guards_are_exactly_the_stated_ones.epochInt, hl, hv, hm, he⟩
+        | shaped v hnd => rw [hd] at hnd; cases hnd
+    · rw [if_neg hd, text_branch_refines_skeleton.text, textPath_iff guards_are_exactly_the_stated_ones]
+      have hd' : isDigitStr s = false := by simpa using hd
+      constructor
+      · rintro ⟨h1, h2, v, ht, hl⟩
+        exact .shaped v hd' h1 h2 ht hl
+      · intro h
+        cases h with
+        | epoch hdd => rw [hdd] at hd'; cases hd'
+        | shaped v _ h1 h2 ht hl => exact ⟨h1, h2, v, ht, hl⟩
+  have out : ∀ i : Input, parseIso i = .value dt ↔ body i = .ok (some dt) := by
+    intro i
+    unfold parseIso parseIsoWith
+    cases hb : body i with
+    | error e => simp only []; split <;> simp
+    | ok o => cases o <;> simp
+  refine ⟨fun s => ?_, fun b => ?_⟩
+  · rw [out, ← key s]
+    rfl
+  · rw [out]
+    simp only [body]
+    cases hb : decodeUtf8 b with
+    | none =>
+      simp only []
+      constructor
+      · intro h; cases h
+      · rintro ⟨s, h, _⟩; cases h
+    | some t =>
+      simp only []
+      rw [key t]
+      constructor
+      · intro h; exact ⟨t, rfl, h⟩
+      · rintro ⟨s, h, hs⟩; injection h with h; subst h; exact hs
+
+/-- Members and non-members of the language of `text_grammar`, through the parser (by the theorem, each
+`.value` below is a derivation in `IsoText` and each `.none` the absence of one). -/
+example : parseIso (.str "2000-02-29".toList) = .value ⟨2000, 2, 29, 0, 0, 0, 0⟩ ∧
+    parseIso (.str "1900-02-29".toList) = .none ∧ parseIso (.str "2100-02-29".toList) = .none ∧
+    parseIso (.str "0400-02-29".toList) = .value ⟨400, 2, 29, 0, 0, 0, 0⟩ ∧
+    parseIso (.str "0000-01-01".toList) = .none ∧ parseIso (.str "0001-01-01".toList) = .value ⟨1, 1, 1, 0, 0, 0, 0⟩ ∧
+    parseIso (.str "9999-12-31T23:59:59".toList) = .value ⟨9999, 12, 31, 23, 59, 59, 0⟩ ∧
+    parseIso (.str "2023-04-18T24:00:00".toList) = .none ∧ parseIso (.str "2023-04-18T23:59:60".toList) = .none ∧
+    parseIso (.str "2023-04-18t12:34:56".toList) = .value ⟨2023, 4, 18, 12, 34, 56, 0⟩ ∧
+    parseIso (.str "2023-04-18t12-34:56".toList) = .none ∧
+    parseIso (.str " 123-04-18".toList) = .value ⟨123, 4, 18, 0, 0, 0, 0⟩ ∧
+    parseIso (.str "2023-04-18T12:34:5".toList) = .none := by decide
+
 /-- **Floats are truncated toward zero, not floored**: a finite float is read as the integer
 `int(x)` (so `-0.5` is second 0 and `-1.5` is second −1 — one second later than flooring would
 give), NaN and the infinities give `None`; the same for `numpy.float64`. -/
@@ -546,36 +665,253 @@ theorem float_epoch_truncates (b : UInt64) :
     rcases hb with hb | hb <;> constructor <;>
       simp only [parseIso, parseIsoWith, body, epoch, c3, c4, if_true, intOfFloat, hb, bind_error, cv.1, cv.2.2.1]
 
-/-- **The DATE and TIMESTAMP casts agree with the parser** (`Iso.cast` is written from the function
-bodies of `orso/types.py`; those of `parse_date` and `parse_timestamp` are extracted with string
-constants blanked and pinned here) for every input: they return the parser's value (its date /
-itself) and raise `ValueError` exactly when the parser yields `None`.
-The TIME cast is not part of the statement; what the model says about it is compared with the code
-on every run and stated here only as far as it is faithful: it returns the value's time of day
-whenever the parser yields a value (for every input that is not already a `datetime.time`), a
-native `time` value is returned unchanged (`parse_time`'s identity branch), and when the parser
-yields `None` it raises `ValueError` for every input that is neither text nor bytes (for text and
-bytes `parse_time` then tries `datetime.time.fromisoformat`, which is outside this model). -/
+/-- **The cast programs translated from the source compute the specification.**  `Iso.castRun` runs
+`Gen.IsoCast.parseDate / parseTime / parseTimestamp` — the three functions of `orso/types.py`,
+translated statement by statement on this run (assignments, `if`, `isinstance`, `is None`, `raise`,
+`try … except ValueError: pass`, the conditional expression, the calls of `parse_iso`,
+`datetime.time.fromisoformat`, `.decode`, `.date()`, `.time()`), over dynamically typed Python
+values.  On every input and for every cast they return exactly what the specification form
+`Iso.cast` says — the same value, the same exception.  `casts_agree` and the TIME theorems below
+are stated about `Iso.cast` and so hold of the code as it is now; a changed test, a new fast path, a
+dropped `None` check or another `except` class breaks this theorem.  Second conjunct: the `DATE`,
+`TIMESTAMP` and `TIME` entries of `ORSO_TO_PYTHON_PARSER` name these three functions and `OrsoTypes.parse`
+only adds the `None` pass-through in front of the table lookup (source text extracted on this run). -/
+theorem cast_programs_refine_spec (k : CastKind) (i : Input) :
+    castRun k i = some (Iso.cast k i) ∧
+    Gen.Iso.castTable = [("DATE", "parse_date"), ("TIMESTAMP", "parse_timestamp"), ("TIME", "parse_time"),
+      ("parse", "if value is None: return None return ORSO_TO_PYTHON_PARSER[self.value](value, **kwargs)")] := by
+  refine ⟨?_, rfl⟩
+  have tod : ∀ s : List Char, ∀ e, timeFromIso s = .error e → e = .valueError := timeFromIso_error
+  cases k
+  · simp only [castRun, Gen.IsoCast.parseDate, pyVal, Except.bind, callParseIso, Iso.cast]
+    cases h : parseIso i <;> simp [pySeq, pyIsNone, pyReturn, methDate, castOut, excOfName, Except.bind]
+  · simp only [castRun, Gen.IsoCast.parseTime, pyVal, Except.bind, callParseIso, Iso.cast]
+    cases i <;> cases h : parseIso _ <;>
+      simp [pySeq, pyIsNone, pyReturn, methTime, castOut, excOfName, Except.bind, pyIsInstance, Val.classes, pyTry]
+    case str.none s =>
+      simp only [callTimeFromIso, timeOfDay, Except.bind]
+      cases ht : timeFromIso s with
+      | ok t => simp
+      | error e => have := tod s e ht; subst this; simp [caughtBy, Exc.mro]
+    case strSub.none s =>
+      simp only [callTimeFromIso, timeOfDay, Except.bind]
+      cases ht : timeFromIso s with
+      | ok t => simp
+      | error e => have := tod s e ht; subst this; simp [caughtBy, Exc.mro]
+    case bytes.none b =>
+      simp only [methDecode]
+      cases hd : decodeUtf8 b with
+      | none => simp [caughtBy, Exc.mro]
+      | some s =>
+        simp only [callTimeFromIso, timeOfDay, Except.bind]
+        cases ht : timeFromIso s with
+        | ok t => simp
+        | error e => have := tod s e ht; subst this; simp [caughtBy, Exc.mro]
+  · simp only [castRun, Gen.IsoCast.parseTimestamp, pyVal, Except.bind, callParseIso, Iso.cast]
+    cases h : parseIso i <;> simp [pySeq, pyIsNone, pyReturn, castOut, excOfName, Except.bind]
+
+/-- **The DATE, TIMESTAMP and TIME casts agree with the parser**, for every input (`Iso.cast` is what
+the cast functions of the source compute, `cast_programs_refine_spec`):
+
+* when the parser yields a value, TIMESTAMP returns it, DATE its date, TIME its time of day;
+* when the parser yields `None`, DATE and TIMESTAMP raise `ValueError`; TIME raises `ValueError` for
+  every object that is neither text nor a `datetime.time`, and for text (`str`, an instance of a `str`
+  subclass, UTF-8 `bytes`) returns what `datetime.time.fromisoformat` reads in it — a time of day on
+  its own — and raises `ValueError` when that does not read it either, or the bytes are not UTF-8;
+* a `datetime.time` is returned unchanged by TIME (the parser answers `None` for it);
+* no cast raises anything but `ValueError`. -/
 theorem casts_agree (i : Input) :
-    (Gen.Iso.parseDateBody = "result = parse_iso(x); if result is None: raise ValueError(''); return result.date()" ∧
-     Gen.Iso.parseTimestampBody = "result = parse_iso(x); if result is None: raise ValueError(''); return result") ∧
     (∀ dt, parseIso i = .value dt →
       Iso.cast .timestamp i = .timestamp dt ∧ Iso.cast .date i = .date dt.year dt.month dt.day ∧
       ((∀ H M S us, i ≠ .time H M S us) → Iso.cast .time i = .time dt.hour dt.minute dt.second dt.micro)) ∧
     (parseIso i = .none →
       Iso.cast .timestamp i = .raises .valueError ∧ Iso.cast .date i = .raises .valueError ∧
-      ((∀ H M S us, i ≠ .time H M S us) → (∀ s, i ≠ .str s) → (∀ b, i ≠ .bytes b) →
+      (∀ s, i = .str s ∨ i = .strSub s → Iso.cast .time i = timeOfDay s) ∧
+      (∀ b, i = .bytes b → Iso.cast .time i =
+        match decodeUtf8 b with | some s => timeOfDay s | none => .raises .valueError) ∧
+      ((∀ H M S us, i ≠ .time H M S us) → (∀ s, i ≠ .str s) → (∀ s, i ≠ .strSub s) → (∀ b, i ≠ .bytes b) →
         Iso.cast .time i = .raises .valueError)) ∧
-    (∀ H M S us, Iso.cast .time (.time H M S us) = .time H M S us ∧ parseIso (.time H M S us) = .none) := by
-  refine ⟨⟨rfl, rfl⟩, ?_, ?_, fun _ _ _ _ => ⟨rfl, rfl⟩⟩
+    (∀ H M S us, Iso.cast .time (.time H M S us) = .time H M S us ∧ parseIso (.time H M S us) = .none) ∧
+    (∀ k e, Iso.cast k i = .raises e → e = .valueError) := by
+  refine ⟨?_, ?_, fun _ _ _ _ => ⟨rfl, rfl⟩, ?_⟩
   · intro dt h
     refine ⟨by simp [Iso.cast, h], by simp [Iso.cast, h], ?_⟩
     intro hne
     cases i <;> first | (exact absurd rfl (hne _ _ _ _)) | (simp [Iso.cast, h])
   · intro h
-    refine ⟨by simp [Iso.cast, h], by simp [Iso.cast, h], ?_⟩
-    intro hne _ _
-    cases i <;> first | (exact absurd rfl (hne _ _ _ _)) | (simp [Iso.cast, h])
+    refine ⟨by simp [Iso.cast, h], by simp [Iso.cast, h], ?_, ?_, ?_⟩
+    · intro s hs
+      rcases hs with rfl | rfl <;> simp [Iso.cast, h]
+    · intro b hb
+      subst hb
+      simp only [Iso.cast, h]
+      cases decodeUtf8 b <;> rfl
+    · intro hne h1 h2 h3
+      cases i
+      case time => exact absurd rfl (hne _ _ _ _)
+      case str => exact absurd rfl (h1 _)
+      case strSub => exact absurd rfl (h2 _)
+      case bytes => exact absurd rfl (h3 _)
+      all_goals simp [Iso.cast, h]
+  · intro k e he
+    have hnr := never_raises i
+    have htod : ∀ s, timeOfDay s = .raises e → e = .valueError := by
+      intro s hs
+      unfold timeOfDay at hs
+      split at hs
+      · cases hs
+      · injection hs with hs; exact hs.symm
+    unfold Iso.cast at he
+    split at he
+    · cases he
+    · cases hp : parseIso i with
+      | raises e' => exact absurd hp (hnr e')
+      | value dt => rw [hp] at he; cases k <;> cases he
+      | none =>
+        rw [hp] at he
+        dsimp only at he
+        split at he
+        · exact htod _ he
+        · exact htod _ he
+        · split at he
+          · exact htod _ he
+          · injection he with he; exact he.symm
+        · injection he with he; exact he.symm
+
+/-- **A time of day on its own — the layouts and their values.**  (`Iso.timeFromIso` is the model of
+`datetime.time.fromisoformat`, to which `parse_time` hands text the parser does not read.)  For all ASCII
+digits `a … f`: `ab`, `ab:cd`, `ab:cd:ef` and `ab:cd:ef.ds` / `ab:cd:ef,ds` with *any* positive number of
+fraction digits `ds` are read as hour `ab`, minute `cd`, second `ef` and the microseconds `fracMicro ds`
+(the first six fraction digits, right-padded with zeros; further digits are dropped, not rounded; never
+more than 999999) — accepted exactly when hour ≤ 23, minute ≤ 59, second ≤ 59, `ValueError` otherwise
+(`24:00`, `23:60`, `23:59:60` are rejected).  One leading `T` is allowed.  A text that does not start
+with two ASCII digits — leading white space, a sign, a non-ASCII digit, a one-digit hour — is a
+`ValueError`. -/
+theorem time_of_day_layouts (a b c d e f : Char) (ha : a.isDigit = true) (hb : b.isDigit = true)
+    (hc : c.isDigit = true) (hd : d.isDigit = true) (he : e.isDigit = true) (hf : f.isDigit = true) :
+    timeFromIso [a, b] = finishTime ⟨twoDigits a b, 0, 0, 0⟩ ∧
+    timeFromIso [a, b, ':', c, d] = finishTime ⟨twoDigits a b, twoDigits c d, 0, 0⟩ ∧
+    timeFromIso [a, b, ':', c, d, ':', e, f] = finishTime ⟨twoDigits a b, twoDigits c d, twoDigits e f, 0⟩ ∧
+    (∀ sep ds, (sep = '.' ∨ sep = ',') → (∀ x ∈ ds, x.isDigit = true) → ds ≠ [] →
+      timeFromIso (a :: b :: ':' :: c :: d :: ':' :: e :: f :: sep :: ds) =
+        finishTime ⟨twoDigits a b, twoDigits c d, twoDigits e f, fracMicro ds⟩ ∧ fracMicro ds ≤ 999999) ∧
+    (∀ t, finishTime t =
+      if t.hour ≤ 23 ∧ t.minute ≤ 59 ∧ t.second ≤ 59 ∧ t.micro ≤ 999999 then .ok t else .error .valueError) ∧
+    (∀ x y r, x ≠ 'T' → unitCount x = 1 → (x.isDigit = false ∨ y.isDigit = false) →
+      timeFromIso (x :: y :: r) = .error .valueError) := by
+  obtain ⟨h1, h2, h3⟩ := timeFromIso_plain a b c d e f ha hb hc hd he hf
+  refine ⟨h1, h2, h3, ?_, fun _ => rfl, ?_⟩
+  · intro sep ds hsep hds hne
+    exact ⟨timeFromIso_fraction a b c d e f sep ha hb hc hd he hf hsep ds hds hne, fracMicro_le ds hds⟩
+  · intro x y r hT hu h
+    exact timeFromIso_needs_two_digits x y r hT h hu
+
+/-- **The TIME cast reads back a time of day written on its own** (how JSON writes a TIME value):
+for every time of day `H:M:S.us`, its rendering `HH:MM:SS` followed by the first `k` digits of the
+microsecond field (`k = 0`: no fraction; `k ≥ 6`: all six), and the rendering `HH:MM`, given as text,
+as an instance of a `str` subclass or as UTF-8 bytes, is not read by the parser (`None`) and is cast by
+TIME to that time of day, the microseconds cut to `k` digits — whereas DATE and TIMESTAMP raise
+`ValueError` for it. -/
+theorem time_cast_roundtrip (H M S us : Nat) (hH : H ≤ 23) (hM : M ≤ 59) (hS : S ≤ 59) (hus : us ≤ 999999) (k : Nat) :
+    let full := renderTime H M S ++ fraction us k
+    let short := pad2 H ++ ':' :: pad2 M
+    let usk := if k = 0 then 0 else truncMicro us k
+    parseIso (.str full) = .none ∧ parseIso (.str short) = .none ∧
+    Iso.cast .time (.str full) = .time H M S usk ∧ Iso.cast .time (.strSub full) = .time H M S usk ∧
+    Iso.cast .time (.bytes (String.ofList full).toUTF8.data.toList) = .time H M S usk ∧
+    Iso.cast .time (.str short) = .time H M 0 0 ∧
+    Iso.cast .date (.str full) = .raises .valueError ∧ Iso.cast .timestamp (.str full) = .raises .valueError := by
+  intro full short usk
+  have hcol : ('0' : Char) = '0' := rfl
+  have nd : ∀ r : List Char, isDigitStr (pad2 H ++ ':' :: r) = false := by
+    intro r; simp [isDigitStr, pad2]
+  have tH := twoDigits_pad H (by omega)
+  have tM := twoDigits_pad M (by omega)
+  have tS := twoDigits_pad S (by omega)
+  have hshort : parseIso (.str short) = .none :=
+    other_inputs_none.2 short (nd _) (Or.inl (by simp [short, pad2]))
+  -- the time of day read in `full`
+  have htod : timeOfDay full = .time H M S usk := by
+    obtain ⟨_, _, p3⟩ := timeFromIso_plain (digit (H / 10)) (digit H) (digit (M / 10)) (digit M) (digit (S / 10)) (digit S)
+      (isDigit_digit _) (isDigit_digit _) (isDigit_digit _) (isDigit_digit _) (isDigit_digit _) (isDigit_digit _)
+    by_cases hk : k = 0
+    · have e : full = [digit (H / 10), digit H, ':', digit (M / 10), digit M, ':', digit (S / 10), digit S] := by
+        simp [full, renderTime, pad2, fraction, hk]
+      have hfin : finishTime ⟨H, M, S, 0⟩ = .ok ⟨H, M, S, 0⟩ := by simp [finishTime, hH, hM, hS]
+      simp only [timeOfDay, e, p3, tH, tM, tS, hfin, usk, hk, if_true]
+    · have hds : ∀ x ∈ (pad6 us).take k, x.isDigit = true := by
+        intro x hx
+        have := List.mem_of_mem_take hx
+        simp only [pad6, List.mem_cons, List.not_mem_nil, or_false] at this
+        rcases this with rfl | rfl | rfl | rfl | rfl | rfl <;> exact isDigit_digit _
+      have hne : (pad6 us).take k ≠ [] := by
+        obtain ⟨j, rfl⟩ : ∃ j, k = j + 1 := ⟨k - 1, by omega⟩
+        simp [pad6]
+      have e : full = digit (H / 10) :: digit H :: ':' :: digit (M / 10) :: digit M :: ':' :: digit (S / 10) :: digit S :: '.' ::
+          (pad6 us).take k := by
+        simp [full, renderTime, pad2, fraction, hk]
+      have p4 := timeFromIso_fraction (digit (H / 10)) (digit H) (digit (M / 10)) (digit M) (digit (S / 10)) (digit S) '.'
+        (isDigit_digit _) (isDigit_digit _) (isDigit_digit _) (isDigit_digit _) (isDigit_digit _) (isDigit_digit _) (Or.inl rfl)
+        _ hds hne
+      have hm := fracMicro_pad6 us k hus (by omega)
+      have hle : truncMicro us k ≤ 999999 := by rw [← hm]; exact fracMicro_le _ hds
+      have hfin : finishTime ⟨H, M, S, truncMicro us k⟩ = .ok ⟨H, M, S, truncMicro us k⟩ := by
+        simp [finishTime, hH, hM, hS, hle]
+      simp only [timeOfDay, e, p4, tH, tM, tS, hm, hfin, usk, hk, if_false]
+  have htods : timeOfDay short = .time H M 0 0 := by
+    obtain ⟨_, p2, _⟩ := timeFromIso_plain (digit (H / 10)) (digit H) (digit (M / 10)) (digit M) (digit (S / 10)) (digit S)
+      (isDigit_digit _) (isDigit_digit _) (isDigit_digit _) (isDigit_digit _) (isDigit_digit _) (isDigit_digit _)
+    have e : short = [digit (H / 10), digit H, ':', digit (M / 10), digit M] := by simp [short, pad2]
+    have hfin : finishTime ⟨H, M, 0, 0⟩ = .ok ⟨H, M, 0, 0⟩ := by simp [finishTime, hH, hM]
+    simp only [timeOfDay, e, p2, tH, tM, hfin]
+  -- the parser does not read it: not all digits, and the character at offset 4 is a digit, not a dash
+  have hfull : parseIso (.str full) = .none ∧ ∀ b, decodeUtf8 b = some full → parseIso (.bytes b) = .none := by
+    apply not_date_shaped_none full (by simp only [full, renderTime, List.append_assoc]; exact nd _)
+    left
+    have : full[4]? = some (digit M) := by simp [full, renderTime, pad2]
+    rw [this]
+    intro h
+    injection h with h
+    exact digit_ne (by decide) h
+  have hsub : parseIso (.strSub full) = .none := rfl
+  have hdec : decodeUtf8 (String.ofList full).toUTF8.data.toList = some full := by
+    have := decodeUtf8_toUTF8 (String.ofList full)
+    simpa using this
+  have ca := casts_agree (.str full)
+  have cb := casts_agree (.strSub full)
+  have cc := casts_agree (.bytes (String.ofList full).toUTF8.data.toList)
+  have cd := casts_agree (.str short)
+  refine ⟨hfull.1, hshort, ?_, ?_, ?_, ?_, (ca.2.1 hfull.1).2.1, (ca.2.1 hfull.1).1⟩
+  · rw [(ca.2.1 hfull.1).2.2.1 full (Or.inl rfl), htod]
+  · rw [(cb.2.1 hsub).2.2.1 full (Or.inr rfl), htod]
+  · rw [(cc.2.1 (hfull.2 _ hdec)).2.2.2.1 _ rfl, hdec]; exact htod
+  · rw [(cd.2.1 hshort).2.2.1 short (Or.inl rfl), htods]
+
+/-- **Whatever the TIME cast returns for a text is a time of day**: hour ≤ 23, minute ≤ 59, second ≤ 59,
+microsecond ≤ 999999 — whether it comes from the parser's value or from the time-of-day reading. -/
+theorem time_cast_value_is_a_time (s : List Char) (H M S us : Nat)
+    (h : Iso.cast .time (.str s) = .time H M S us) : H ≤ 23 ∧ M ≤ 59 ∧ S ≤ 59 ∧ us ≤ 999999 := by
+  have ca := casts_agree (.str s)
+  cases hp : parseIso (.str s) with
+  | raises e => exact absurd hp (never_raises _ e)
+  | value dt =>
+    have hv := (text_value_sound s dt hp).1
+    have := (ca.1 dt hp).2.2 (fun _ _ _ _ => by intro hh; cases hh)
+    rw [this] at h
+    injection h with h1 h2 h3 h4
+    subst h1 h2 h3 h4
+    simp only [validDateTime, Bool.and_eq_true, decide_eq_true_eq] at hv
+    omega
+  | none =>
+    have := (ca.2.1 hp).2.2.1 s (Or.inl rfl)
+    rw [this] at h
+    unfold timeOfDay at h
+    split at h
+    · next t ht =>
+      injection h with h1 h2 h3 h4
+      subst h1 h2 h3 h4
+      exact timeFromIso_ok s t ht
+    · cases h
 
 /-- **The dispatch in front of the string branch is the one `Iso.body` was written from.**
 `parse_iso` carries no decorator (no cache between the caller and the `try`), takes one argument,
